@@ -653,6 +653,44 @@ func monC06(x *Ctx) {
 				x.Violate("to/collateral/set", id, fmt.Sprintf("other attributes differ from the unfaulted run: %v", d), detail())
 			}
 		}
+		// --- a whole level without attribute types (nil AttrTypes) -------------------
+		for _, k := range keys {
+			l := levels[k]
+			live := l.ms.Live()
+			if len(live) == 0 {
+				continue
+			}
+			fot := ot
+			for _, a := range live {
+				fot = pruneType(fot, l.chain, a.Attr, nil)
+			}
+			obj := types.Object{AttrTypes: fot.AttrTypes}
+			if len(l.chain) == 0 {
+				obj.AttrTypes = nil
+			}
+			x.Eval(1)
+			x.Count("to-level-without-types", 1)
+			out := x.CopyTo(src, &obj)
+			id := fmt.Sprintf("%s/no-types@%s", in, l.ms.Path)
+			if out.Panic != nil {
+				x.Violate(fmt.Sprintf("to/panic/no-attr-types/%s/%s", panicClass(out.Panic), x.nilEmbedClass(src)), id, "CopyTo panicked on a target level without attribute types", map[string]interface{}{"panic": panicDetail(out)})
+				continue
+			}
+			errs := errorDiags(out.Diags)
+			missing := 0
+			for _, a := range live {
+				for _, e := range errs {
+					if strings.Contains(e, a.Path) && strings.Contains(e, "is missing") {
+						missing++
+						break
+					}
+				}
+			}
+			if missing != len(live) || len(errs) != len(live) {
+				x.Violate("to/diag-count/no-attr-types", id, fmt.Sprintf("%d error diagnostics (%d of %d attributes named), want one per attribute of %s", len(errs), missing, len(live), l.ms.Path),
+					map[string]interface{}{"diags": errs})
+			}
+		}
 		for _, k := range keys {
 			l := levels[k]
 			for _, a := range l.ms.Live() {
